@@ -103,6 +103,7 @@ type typeFacts struct {
 	blankEq                                     bool // a tag spelt with blanks around '='
 	squash                                      bool // an inline field spelt `squash`
 	ifaceField, ifaceList, ifaceMap             bool // interface{} as field type, as element type of a list, of a map
+	tagOnIface                                  bool // N-C04-2: validate tag on a field of type interface{}
 }
 
 func hasValidators(td *gen.TD) bool {
@@ -209,6 +210,9 @@ func (f *typeFacts) scan(td *gen.TD) {
 				if base.Kind == "named:string" {
 					f.tagOnNamedString = true
 				}
+				if fd.T.Kind == "iface" {
+					f.tagOnIface = true
+				}
 			}
 			f.scan(fd.T)
 		}
@@ -287,7 +291,7 @@ func (f *typeFacts) avoided() string {
 		{"D45", f.namedString}, {"D31", f.mapOfStructOrArr}, {"D42", f.ptrCollElems},
 		{"D23", f.tagOnPtr}, {"D30", f.ptrToColl}, {"D32", f.tagOnPtrToMap},
 		{"D35", f.mapWithValidator}, {"D41", f.tagOnArray}, {"D47", f.tagOnNamedString}, {"D49", f.ptrPtrValidator},
-		{"D55", f.inlineTags["map"]},
+		{"D55", f.inlineTags["map"]}, {"N-C04-2", f.tagOnIface},
 	} {
 		if c.hit && open(c.id) {
 			return c.id
@@ -501,7 +505,7 @@ func runCase(c Case, r *runlog.R) error {
 	}
 	nt := false
 	var fromDefault, fromInit, viaPtr, inColl, inInline, byMethod, byTag, partial, partialInit bool
-	var viaIface, ifaceMethod, ifaceMethodDflt, ifaceTag, ifaceTagDflt, ifaceCfg bool
+	var viaIface, ifaceMethod, ifaceMethodDflt, ifaceTag, ifaceTagDflt, ifaceCfg, onIface, onIfaceCfg bool
 	onInline := map[string]bool{}
 	params := map[string]bool{}
 	for _, e := range deciding {
@@ -521,6 +525,10 @@ func runCase(c Case, r *runlog.R) error {
 			} else {
 				fromDefault = true
 			}
+		}
+		if e.onIface {
+			onIface = true
+			onIfaceCfg = onIfaceCfg || e.fromCfg
 		}
 		if e.viaIface {
 			viaIface = true
@@ -576,6 +584,8 @@ func runCase(c Case, r *runlog.R) error {
 		r.ClassIf(ifaceTag, "decided through an interface by a tag")
 		r.ClassIf(ifaceTagDflt, "decided through an interface by a tag, value not mentioned by the configuration")
 		r.ClassIf(ifaceCfg, "decided through an interface, setting merged into the held value")
+		r.ClassIf(onIface, "decided by a tag on an interface{} field")
+		r.ClassIf(onIfaceCfg, "decided by a tag on an interface{} field, value from the configuration")
 		for _, k := range []string{"slice", "array", "map"} {
 			r.ClassIf(onInline[k], "decided by a tag on an inline "+k)
 		}
@@ -612,6 +622,7 @@ func runCase(c Case, r *runlog.R) error {
 	r.ClassIf(facts.blankEq, "type: tag spelt with blanks around '='")
 	r.ClassIf(facts.squash, "type: inline field spelt squash")
 	r.ClassIf(facts.ifaceField, "type: interface{} field")
+	r.ClassIf(facts.tagOnIface, "type: tag on an interface{} field")
 	r.ClassIf(facts.ifaceList, "type: list of interface{}")
 	r.ClassIf(facts.ifaceMap, "type: map[string]interface{}")
 	r.ClassIf(len(c.Dyn) > 0, "prefill: typed value held by an interface")
